@@ -225,8 +225,8 @@ def run_spec3(ctx, spec, harvested, seen_cls, fail_cls, excluded_log):
                 rt = spec.tokens(r[1])
             except (NotRep, skel.NotSkeleton) as e:
                 ctx.disagree(f"{nm}: re-read value is not representable in the model", {"value": _short(toks), "why": str(e)})
-                continue
-            if a[0] != "ok" or a[1] != rt or int(a[2]) != r[2]:
+                rt = None                      # the Python-only oracle below still runs (it counts this as "re-read differs")
+            if rt is not None and (a[0] != "ok" or a[1] != rt or int(a[2]) != r[2]):
                 ctx.disagree(f"{nm}: read() structure / cursor != model dec",
                              {"value": _short(toks), "py": _short(rt), "model": _short(a[1]) if len(a) > 1 else a,
                               "py_pos": r[2], "model_pos": a[2] if len(a) > 2 else None, "padding": pad})
